@@ -295,3 +295,8 @@ def run(prog, chk):
                    primary=False, floor=1)
     if memrules.out_param_not_dangling(prog, r11) < 1:
         raise Broken("no release of an out-parameter's referent found (expected cif_packet_create)")
+
+    r12 = chk.rule("R12-clean-helpers-reset-pointers", "a `*_clean` function resets every pointer field it frees (the object stays alive: "
+                   "a failure handler may clean it and hand it back with its kind unchanged)", primary=False, floor=4)
+    if memrules.clean_helpers_reset(prog, r12) < 4:
+        raise Broken("fewer than 4 frees in *_clean helpers")
